@@ -120,6 +120,11 @@ fn main() {
         "replay" => {
             let s = std::fs::read_to_string(&args[2]).expect("read replay file");
             let v: serde_json::Value = serde_json::from_str(&s).expect("parse replay file");
+            if let Some(h) = v.get("hang") {
+                println!("this file records a call that did not return (CPU-time watchdog): {}", h);
+                println!("it is not re-executed automatically; feed the listed history by hand to reproduce");
+                std::process::exit(1);
+            }
             let ctx = Ctx {
                 id: v["check"].as_str().unwrap_or("").to_string(),
                 tier: Tier::Quick,
